@@ -2,7 +2,7 @@
     Property theorems only; each is closed by [exact] of a lemma of [Proofs/]. *)
 From Coq Require Import List ZArith Bool.
 From EDS Require Import Model.Objects Model.PodSpec Model.Rolling Model.Canary
-     Proofs.Lists Proofs.CanaryProofs Proofs.C06Proofs Proofs.C08Proofs.
+     Proofs.Lists Proofs.CanaryProofs Proofs.C06Proofs Proofs.C08Proofs Proofs.FitnessProofs.
 Import ListNotations.
 Open Scope Z_scope.
 
@@ -76,3 +76,16 @@ Theorem C06_restart_record_monotone : forall oc unpaused now st0 f0 p0 r0 check 
             c_update b <= c_update a /\ (c_status b = CTrue -> c_trans a = c_trans b).
 Proof. exact restart_record_monotone. Qed.
 Print Assumptions C06_restart_record_monotone.
+
+(** "cannot start" is a property of the set of container statuses: a pod cannot start exactly when SOME status (regular,
+    init or ephemeral, in any position) waits on one of the listed reasons, and the reason reported is a listed one -
+    a harmless waiting reason in front of it hides nothing *)
+Theorem C06_cannot_start_iff : forall p,
+  fst (cannot_start p) = existsb (fun c => match cs_waiting c with Some r => is_cannot_start_reason r | None => false end) (p_cstats p).
+Proof. exact cannot_start_iff. Qed.
+Print Assumptions C06_cannot_start_iff.
+
+Theorem C06_cannot_start_reason_listed : forall p,
+  fst (cannot_start p) = true -> is_cannot_start_reason (snd (cannot_start p)) = true.
+Proof. exact cannot_start_reason_listed. Qed.
+Print Assumptions C06_cannot_start_reason_listed.
